@@ -13,7 +13,8 @@ Binding, spec -> implementation: TLC enumerates ALL operation histories to depth
 argument domains and to depth 3 over trimmed domains (sampled with EmitMod at the quick tier,
 everything at the thorough tier), plus a >= 17-row configuration for the stability clause, plus
 `-simulate` runs with trimmed domains; every emitted history is replayed step by step into real
-objects (4 descriptor flavours: list|ndarray x int|str) and after every step ALL live objects and
+objects (4 descriptor flavours: list|ndarray x int|str, rotating over 4 memory layouts of the source
+measurements: C, Fortran, transposed view, strided slice) and after every step ALL live objects and
 everything the call returned (all parts of a split, group means, the DataFrame) are compared with
 the specification.  A mirror run lets TLC print Obs(ob) next to the ghost labels so that the
 Python decoding of labels (harness/datastore.py:expected) is itself checked against the spec.
@@ -106,7 +107,7 @@ def replay_all(ctx, r, c, seen_ops):
             for i, flavour, res, src, events in bad:
                 k, key, detail = res
                 ctx.violation(f'{PID}/{key}', f'step {k + 1} of a history leaves the specification: {key}',
-                              {'src': src, 'const': c, 'flavour': flavour, 'variant': i // 4, 'step': k,
+                              {'src': src, 'const': c, 'flavour': flavour, 'variant': i // 4, 'layout': S.LAYOUTS[(i // 4) % 4], 'step': k,
                                'events': events, 'detail': detail})
     return n
 
@@ -135,7 +136,8 @@ def _trace_one(args):
     seed, src, c, length, ops, scratch = args
     rng = np.random.default_rng(seed)
     flavour = S.FLAVOURS[seed % 4]
-    return seed, src, flavour, S.random_trace(rng, src, c, flavour, length, ops, scratch=scratch)
+    layout = S.LAYOUTS[(seed // 4) % 4]
+    return seed, src, flavour, S.random_trace(rng, src, c, flavour, length, ops, scratch=scratch, layout=layout)
 
 
 def record_and_validate(ctx, sources, c, ntraces, length, corrupt=False):
@@ -281,14 +283,14 @@ def run(ctx):
     total = 0
     # (name, sources, depth, arglevel, emit one in .., constants, ops, binlen)
     if thorough:
-        runs = [('size1_d2', [20122, 20312, 30321, 20111, 10110, 10130, 30113], 2, 2, 1, c, 'C11Ops', 2),
-                ('d2_full', [10322, 20322, 30322, 10420, 20421, 20223], 2, 2, 1, c, 'C11Ops', 2),
+        runs = [('size1_d2', [20122, 20312, 30321, 20111, 10110, 10130, 30113, 40210], 2, 2, 1, c, 'C11Ops', 2),
+                ('d2_full', [40322, 20322, 30322, 10420, 50421, 20223], 2, 2, 1, c, 'C11Ops', 2),
                 ('d2_full_b', [10432, 20413], 2, 2, 1, c, 'C11Ops', 2),
-                ('d3_trim', [20222, 30222, 10320, 20312, 20122], 3, 1, 1, c, 'C11Ops', 2),
+                ('d3_trim', [20222, 30222, 40320, 20312, 20122], 3, 1, 1, c, 'C11Ops', 2),
                 ('big_d2', [11820, 21822, 31821], 2, 1, 1, cbig, 'RowOps', 2)]
     else:
-        runs = [('size1_d2', [20122, 20312, 30321, 20111, 10110, 10420], 2, 1, 1, c, 'C11Ops', 2),
-                ('d2_full', [10322, 30322, 20223], 2, 2, 4, c, 'C11Ops', 2),
+        runs = [('size1_d2', [20122, 20312, 30321, 20111, 10110, 40420, 50222], 2, 1, 1, c, 'C11Ops', 2),
+                ('d2_full', [40322, 30322, 20223], 2, 2, 4, c, 'C11Ops', 2),
                 ('d3_trim', [20222], 3, 1, 12, c, 'C11Ops', 2),
                 ('big_d2', [11820, 21822], 2, 1, 1, cbig, 'RowOps', 2)]
     ctx.exhaustive = all(x[4] == 1 for x in runs)
@@ -301,12 +303,12 @@ def run(ctx):
         ctx.sample({'run': name, 'src': first['src'], 'events': [st['ev'] for st in first['hist']]}, cap=8)
         total += replay_all(ctx, r, cc, seen_ops)
     # the Python decoding of ghost labels against Obs() printed by TLC
-    r = ctx.tlc('MC_DataStore', cfg([30322, 20223], 2, 1, c, emitmod=5, emitobs=1), name='mirror',
+    r = ctx.tlc('MC_DataStore', cfg([30322, 20223, 40320], 2, 1, c, emitmod=5, emitobs=1), name='mirror',
                 timeout=900, deque=True, count=False)
     ctx.extra['mirror_objects_checked'] = mirror_check(ctx, r)
     # long random behaviours of the specification (trimmed argument domains keep -simulate usable)
     nsim, dsim = (10, 10) if thorough else (2, 6)     # traces per worker; every trace emits all its last successors
-    r = ctx.tlc('MC_DataStore', cfg([20322, 30322, 10420, 20223], dsim, 1, const(maxobj=4), props=False),
+    r = ctx.tlc('MC_DataStore', cfg([20322, 30322, 40420, 20223], dsim, 1, const(maxobj=4), props=False),
                 name='sim', simulate=f'num={nsim}', depth=dsim + 1, workers=16, timeout=1200)
     if r.n_emitted < 16 * nsim:
         raise MachineryError(f'simulation emitted only {r.n_emitted} behaviours')
@@ -318,7 +320,7 @@ def run(ctx):
     ctx.extra['operations_replayed'] = sorted(seen_ops)
     ctx.traces += total
     # implementation -> specification
-    tsrc = [10432, 20432, 30432, 20423, 30333, 20113, 20131, 10140, 20122]
+    tsrc = [40432, 20432, 30432, 50423, 30333, 20113, 20131, 10140, 20122]
     n = record_and_validate(ctx, tsrc, const(maxobj=4), 3000 if thorough else 320, 16 if thorough else 10)
     ctx.extra['recorded_histories_validated'] = n
     binding_selftest(ctx, tsrc[:4], const(maxobj=4))
